@@ -7,6 +7,7 @@
 package qevent
 
 import (
+	"os"
 	"encoding/json"
 	"fmt"
 	"math/rand"
@@ -177,6 +178,8 @@ func (w *world) startQuery() bool {
 			case "panic-nil":
 				var v interface{}
 				panic(v)
+			case "panic-typednil":
+				panic((*os.PathError)(nil)) // an error value whose Error method cannot be called
 			case "collection-panic-marshal":
 				qr.Collection([]interface{}{1, panicMarshal{}})
 			case "error-panic-marshal":
@@ -304,7 +307,7 @@ func replayBehaviour(seed int64, steps []sched.Step, src string) rec {
 	return w.record(ids, false, true, src)
 }
 
-var behaviours = []string{"", "collection", "events", "error", "notfound", "panic", "panic-err", "twice", "reply-panic", "events2", "events-notfound", "events-collection", "events-panic", "panic-nil", "", "events", "collection-panic-marshal", "error-panic-marshal"}
+var behaviours = []string{"", "collection", "events", "error", "notfound", "panic", "panic-err", "twice", "reply-panic", "events2", "events-notfound", "events-collection", "events-panic", "panic-nil", "", "events", "collection-panic-marshal", "error-panic-marshal", "panic-typednil"}
 
 // panicMarshal is a value whose encoding panics (a nil dereference in a custom marshaller, say).
 type panicMarshal struct{}
